@@ -23,19 +23,19 @@ ALL = ["C%02d" % i for i in range(1, 20)]
 CHECKS = {
 "C17": dict(
   category="exploration",
-  text="Seeded invocations of the real binary (dev profile: overflow checks on): the grid statistic(14) x shapes with 1..4 axes of length 1..4, view/fold option combinations on degenerate shapes, option values at and beyond their bounds, valid spectra and call sets with simulated storage corruption (bit flips, truncation, duplicated/deleted ranges, splices, numeric blow-ups), absurd declared shapes, 0..8-byte inputs, spectra steered to every npy header alignment boundary, contradictory sample lists and samples files; a quarter of the inputs arrive on shim-chunked stdin. Oracle: exit 0, or non-zero (not 101, no signal) with a diagnostic. Sampling; violations are keyed by panic site.",
+  text="Seeded invocations of the real binary (dev profile: overflow checks on): the grid statistic(14) x shapes with 1..4 axes of length 1..4, view/fold option combinations on degenerate shapes, option values at and beyond their bounds, valid spectra and call sets with simulated storage corruption (bit flips, truncation, duplicated/deleted ranges, splices, numeric blow-ups), absurd declared shapes composed from boundary axis lengths, typed-value and site-field corruption inside BCF records, 20-64 populations, thousands of axes, 0..8-byte inputs, spectra steered to every npy header alignment boundary, contradictory sample lists and samples files; a quarter of the inputs arrive on shim-chunked stdin. Oracle: exit 0, or non-zero (not 101, no signal) with a diagnostic. Sampling; violations are keyed by panic site.",
   design_ref="DESIGN.md section 6 / C17",
   note="Children run under 30 s CPU / 16 GiB limits that only protect the sandbox; hitting them is inconclusive, never a violation. --threads up to 64 only. Dev-profile binary.",
   technique="deterministic simulation with fault injection at process level: seeded command lines x corrupted storage images x chunked delivery against the unmodified binary; crash-freedom oracle"),
 "C12": dict(
   category="exploration",
-  text="Two engines. (1) Per generated diploid call set and configuration, ~19 executions that each perturb one dimension (container, explicit BGZF block layout incl. empty blocks and 1-byte blocks, --threads 1..16, transport path / stdin-file / pre-filled pipe, getrandom-derived hash seed, environment and cwd, repetition) are compared with the canonical execution: stdout bytes + exit status of the real binary (L2), spectrum bits in-process (L1, where hash seeds are also a controlled dimension through an in-process getrandom seam). (2) Thread schedules: the real create path runs over multi-block BGZF input with 2..8 threads under shuttle's seeded random / PCT schedulers, which own every interleaving of the reader with the BGZF inflater threads (a vendored copy of the noodles-bgzf worker pool takes its threads and channels from shuttle); every explored schedule must give the single-threaded result, a failing schedule is persisted and replays exactly. Sampling of workloads, variants and schedules.",
+  text="Two engines. (1) Per generated diploid call set and configuration, ~19 executions that each perturb one dimension (container, explicit BGZF block layout incl. empty blocks (also runs of thousands of them) and 1-byte blocks, headers with and without ##contig lines, BCF minor version, --threads 1..16, transport path / stdin-file / pre-filled pipe, getrandom-derived hash seed, environment and cwd, repetition) are compared with the canonical execution: stdout bytes + exit status of the real binary (L2), spectrum bits in-process (L1, where hash seeds are also a controlled dimension through an in-process getrandom seam). (2) Thread schedules: the real create path runs over multi-block BGZF input with 2..8 threads under shuttle's seeded random / PCT schedulers, which own every interleaving of the reader with the BGZF inflater threads (a vendored copy of the noodles-bgzf worker pool takes its threads and channels from shuttle); every explored schedule must give the single-threaded result, a failing schedule is persisted and replays exactly. Sampling of workloads, variants and schedules.",
   design_ref="DESIGN.md section 6 / C12, section 12",
   note="SFS_ALLOW_STDIN=1 in every run. Diploid call sets with GT in every record only. Chunking held benign (C18's dimension). In engine (1) the BGZF worker interleaving is real OS scheduling (oracle insensitive to it); engine (2) controls it, on a vendored copy of the dependency's worker pool whose only change is the thread/channel runtime (crossbeam multi-consumer receiver modelled as mpsc receiver behind a mutex).",
   technique="deterministic simulation: seeded configurations with simulated getrandom/environment/transport (simctl + LD_PRELOAD shim) and seeded thread-schedule exploration with replayable schedules (shuttle)"),
 "C10": dict(
   category="fault_enumeration",
-  text="For each generated call set + configuration one fault kind (source I/O error, ploidy error in a selected / unselected sample, strict violation; at process level also malformed VCF lines, truncated BCF records, corrupted BGZF blocks and shim read errors at record boundaries) is placed at every record index of the stream in turn (exhaustive per case for streams <= 40 records, sampled positions above), optionally followed by a second fault, at verbosity 0..2 (-v flags / logger level); conservation (mass + skipped = records), strict-mode first-failure and all-or-nothing are judged on every run. Call sets and configurations are sampled.",
+  text="For each generated call set + configuration one fault kind (source I/O error, ploidy error in a selected / unselected sample, strict violation; at process level also malformed VCF lines, truncated BCF records, corrupted BGZF blocks and shim read errors at record boundaries) is placed at every record index of the stream in turn (exhaustive per case for streams <= 40 records, sampled positions above), optionally followed by a second, later fault, at verbosity 0..2, cohorts up to 1,100 samples, at process level by path or on chunked stdin (-v flags / logger level); conservation (mass + skipped = records), strict-mode first-failure and all-or-nothing are judged on every run. Call sets and configurations are sampled.",
   design_ref="DESIGN.md section 6 / C10",
   note="'Would be skipped' is taken from the tool's own non-strict run. For malformed/corrupt records only the all-or-nothing clause is applied. L1 uses a simulated genotype source (stub) under the real site reader and Runner; L2 the real binary.",
   technique="deterministic simulation with fault injection: exhaustive placement of record-stream faults over a simulated genotype source and crafted files; conservation and all-or-nothing oracles"),
@@ -47,7 +47,7 @@ CHECKS = {
   technique="deterministic simulation: seeded operation histories with injected source faults, checked by refinement against a history-free reference (fresh reader per record)"),
 "C16": dict(
   category="fault_enumeration",
-  text="Crash-consistency enumeration: for each generated valid spectrum file (numpy-style npy of every dtype/byte order/version/spelling, npy and text written by sfs) every truncation offset, every extension of 1..16 bytes in four content kinds and every single-token / shape edit of text is produced and handed to the real readers, which must reject all of them; the real view/fold/stat binaries are run on one damage per class and on prefixes the tool itself leaves when killed mid-write by the shim. Exhaustive per file within the size bound (<= 64 elements quick, <= 480 thorough); files are sampled.",
+  text="Crash-consistency enumeration: for each generated valid spectrum file (numpy-style npy of every dtype/byte order/version/spelling, npy and text written by sfs) every truncation offset, every extension of 1..16 bytes in five content kinds and every single-token edit (with every kind of ASCII whitespace at the edited place) / shape edit of text is produced and handed to the real readers, which must reject all of them; the real view/fold/stat binaries are run on one damage per class and on prefixes the tool itself leaves when killed mid-write by the shim. Exhaustive per file within the size bound (<= 64 elements quick, <= 480 thorough; larger files, up to 66,000 values, with every extension and sampled truncation offsets); files are sampled.",
   design_ref="DESIGN.md section 6 / C16",
   note="A panic on a damaged file counts as rejection here (panics are C17). The oracle is applied only when the undamaged control is accepted by the same reader.",
   technique="deterministic simulation with fault injection: exhaustive crash-point (truncation) and stale-tail enumeration on a simulated disk; process-level kill-at-byte-k via LD_PRELOAD shim"),
@@ -59,7 +59,7 @@ CHECKS = {
   technique="deterministic simulation: seeded storage histories (write, read back) under short-write / chunked-read schedules at library and process level"),
 "C19": dict(
   category="exploration",
-  text="Every shape of the stated grid (1..5 axes x lengths 1..5, 3,905 shapes) x every axis incl. dims and dims+1 x every position incl. len and len+1 is visited; on each, seeded call histories (next/len/size_hint/clone continued 1..2*len+4 calls past the first None) are run against iter_indices, iter_axis, view iterators and iter_frequencies and compared call by call with a nested-loop row-major reference model; sum(axis) is compared with adding the views. The grid is exhaustive, the histories are sampled.",
+  text="Every shape of the stated grid (1..5 axes x lengths 1..5, 3,905 shapes) x every axis incl. dims and dims+1 x every position incl. len and len+1 is visited; on each, seeded call histories (next/nth/len/size_hint/clone, and fold/count/last on a clone or by value, continued 1..2*len+4 calls past the first None) are run against iter_indices, iter_axis, view iterators and iter_frequencies and compared call by call with a nested-loop row-major reference model; sum(axis) is compared with adding the views. The grid is exhaustive, the histories are sampled.",
   design_ref="DESIGN.md section 6 / C19",
   note="Weakest fit for the technique: there is no fault or schedule dimension; the simulator contributes call histories, reference model, minimisation and replay. Harness built with overflow checks on.",
   technique="deterministic simulation: seeded operation histories on stateful iterators checked against an executable sequential reference model"),
